@@ -694,6 +694,103 @@ def exec_sigprof(case):
 
 
 # ================================================================================================ lane 3: flows
+# ================================================================================================ certificate chains (CertChain.tla)
+CERT_ENTRIES = ("validate", "validate_subject", "chain")
+CERT_TAMPERS = ("none", "tbsbit", "sigbit", "key")
+
+
+def _mk_cert(cn, issuer_cn, pub, signer, hname, ca, r_):
+    """An X.509 certificate made with `cryptography` directly; serial number and validity are drawn from the seed."""
+    import datetime
+
+    from cryptography import x509
+    from cryptography.x509.oid import NameOID
+
+    nm = lambda t: x509.Name([x509.NameAttribute(NameOID.COMMON_NAME, t)])  # noqa: E731
+    t0 = datetime.datetime(2024, 1, 1, tzinfo=datetime.timezone.utc) + datetime.timedelta(days=r_.randrange(300))
+    return (x509.CertificateBuilder().subject_name(nm(cn)).issuer_name(nm(issuer_cn)).public_key(pub)
+            .serial_number(r_.randrange(1, 1 << 64)).not_valid_before(t0).not_valid_after(t0 + datetime.timedelta(days=3650))
+            .add_extension(x509.BasicConstraints(ca=ca, path_length=None), critical=True).sign(signer, c_hash(hname)))
+
+
+def _cert_indep_ok(issuer, subject):
+    """(issuer public key, subject signature, subject TBS bytes, the hash the SUBJECT names) verified by `cryptography` directly."""
+    C = _c()
+    pub, h = issuer.public_key(), subject.signature_hash_algorithm
+    try:
+        if isinstance(pub, C["rsa"].RSAPublicKey):
+            pub.verify(subject.signature, subject.tbs_certificate_bytes, C["padding"].PKCS1v15(), h)
+        else:
+            pub.verify(subject.signature, subject.tbs_certificate_bytes, C["ec"].ECDSA(h))
+        return True
+    except C["InvalidSignature"]:
+        return False
+
+
+def cert_material(kt, size, ih, sh, salt):
+    """root (self-signed with hash ih) -> leaf (signed by the root key with hash sh) plus the three disturbed variants, all made by
+    the independent base.  Returns {tamper: (issuer x509, subject x509)}."""
+    from cryptography import x509
+
+    C = _c()
+    r_ = rng(PROP, "cert", kt, size, ih, sh, salt)
+    ks = pool()[(kt, size)]
+    ik = r_.randrange(len(ks))
+    root_key, other_key = ks[ik].priv, ks[(ik + 1) % len(ks)].priv
+    leaf_pub = r_.choice(pool()[("ecc", 256)]).priv.public_key()
+    c = (size + 7) // 8
+    for _ in range(50):  # guard: a DER ECDSA signature of exactly 2c bytes is read as raw (known finding C08/ecdsa-verify/.../derlen=2c)
+        root = _mk_cert("C08 root", "C08 root", root_key.public_key(), root_key, ih, True, r_)
+        leaf = _mk_cert("C08 leaf", "C08 root", leaf_pub, root_key, sh, False, r_)
+        if kt == "rsa" or (len(leaf.signature) != 2 * c and len(root.signature) != 2 * c):
+            break
+    der = leaf.public_bytes(C["S"].Encoding.DER)
+    at = der.index(b"C08 leaf") + 4 + r_.randrange(4)  # a letter of the subject name, inside the TBS part
+    tbs = x509.load_der_x509_certificate(der[:at] + bytes([der[at] ^ 1]) + der[at + 1:])
+    sigb = x509.load_der_x509_certificate(der[:-1] + bytes([der[-1] ^ (1 << r_.randrange(8))]))  # the last byte of the signature
+    if tbs.tbs_certificate_bytes == leaf.tbs_certificate_bytes or tbs.signature != leaf.signature or sigb.signature == leaf.signature \
+            or sigb.tbs_certificate_bytes != leaf.tbs_certificate_bytes:
+        raise Machinery("certificate tampering did not hit the intended part")
+    forged_root = _mk_cert("C08 root", "C08 root", other_key.public_key(), other_key, ih, True, r_)  # same name, another key
+    return {"none": (root, leaf), "tbsbit": (root, tbs), "sigbit": (root, sigb), "key": (forged_root, leaf)}
+
+
+def exec_cert(case, only=None):
+    """All observations of one chain (kt, size, ih, sh, salt): tamper x entry point.  `library`=False: the verdict is the independent
+    base's (canary: the observation never passes through SPSDK)."""
+    kt, size, ih, sh, salt = case["kt"], case["size"], case["ih"], case["sh"], case["salt"]
+    C = _c()
+    mat = cert_material(kt, size, ih, sh, salt)
+    library = case.get("library", True)
+    if library:
+        from spsdk.crypto.certificate import Certificate, validate_certificate_chain
+    out = []
+    for tamper in CERT_TAMPERS:
+        issuer, subject = mat[tamper]
+        indep = _cert_indep_ok(issuer, subject)
+        for entry in CERT_ENTRIES:
+            if only and (tamper, entry) != only:
+                continue
+            if library:
+                def call():
+                    ci = Certificate.parse(issuer.public_bytes(C["S"].Encoding.DER))
+                    cs = Certificate.parse(subject.public_bytes(C["S"].Encoding.DER))
+                    if entry == "validate":
+                        return cs.validate(ci)
+                    if entry == "validate_subject":
+                        return ci.validate_subject(cs)
+                    got = validate_certificate_chain([cs, ci])
+                    return True if got == [True] else False if got == [False] else got
+                val, err = outcome(call)
+                res, detail = ("true" if val is True else "false" if val is False else (err or f"other:{val!r}")[:60]), (err or "")
+            else:
+                res, detail = ("true" if indep else "false"), ""
+            out.append({"kind": "cert", "a": {"kt": kt, "size": size, "ih": ih, "sh": sh, "tamper": tamper, "entry": entry},
+                        "o": {"ih": issuer.signature_hash_algorithm.name, "sh": subject.signature_hash_algorithm.name, "indep": indep, "res": res},
+                        "x": {"detail": detail, "case": {**case, "only": [tamper, entry]}}})
+    return out
+
+
 def measure_default(key):
     """Which hash does SPSDK use when none is named?  Sign with algorithm=None and see under which hash the pure verifier accepts."""
     if key.dflt is None:
@@ -1177,6 +1274,24 @@ def canary(v):
     _ = key
 
 
+def canary_cert(v):
+    """Certificate clauses: observations whose verdict is the independent base's (never SPSDK's) are accepted, single-field corruptions rejected."""
+    good = exec_cert({"kt": "ecc", "size": 384, "ih": "sha384", "sh": "sha256", "salt": 0, "library": False})
+    obs = [{"id": f"good-{n}", "a": o["a"], "o": o["o"]} for n, o in enumerate(good)]
+    gen_ = next(o for o in good if o["a"]["tamper"] == "none" and o["a"]["entry"] == "validate_subject")
+    tam = next(o for o in good if o["a"]["tamper"] == "sigbit" and o["a"]["entry"] == "validate")
+    bad = []
+    for name, base, field, val in (("bad-refused", gen_, "res", "false"), ("bad-exc", gen_, "res", "exc:ValueError"), ("bad-accepted", tam, "res", "true"),
+                                   ("bad-hash", gen_, "ih", "sha256"), ("bad-made", tam, "indep", True)):
+        b = json.loads(json.dumps({"id": name, "a": base["a"], "o": base["o"]}))
+        b["o"][field] = val
+        bad.append(b)
+    rej, _ = tlc.tv("C08", "CertChainTrace", obs + bad)
+    if set(rej) != {b["id"] for b in bad}:
+        raise Machinery(f"canary (certificates) failed: rejected {sorted(rej)}")
+    v.extra["canary_certificates"] = f"{len(obs)} observations of a mixed-hash chain judged by the independent base accepted; {len(bad)} single-field corruptions rejected"
+
+
 def parse_set(s):
     import re
 
@@ -1238,6 +1353,8 @@ def _exec(job):
 
     kind, arg = job
     t0 = time.process_time()
+    if kind == "cert":  # one chain -> a list of observations (tamper x entry point)
+        return exec_cert(arg)
     res = exec_sigcodec(arg) if kind == "sigcodec" else exec_sigprof(arg) if kind == "sigprof" else replay_flow(arg)
     if res is not None:
         res["cpu"] = time.process_time() - t0
@@ -1293,7 +1410,9 @@ def run(tier):
         bg.start("sig/3-mid", gen, "sig", 3, menu="mid", src=gsrc)
         bg.start("sig/3", gen, "sig", 3, src=gsrc)
         bg.start("sig/sim", gen, "sig", 8, simulate="num=8000", sim_depth=10)
+    bg.start("cert", tlc.mc, "C08", "CertChainMC", "CertChainMC.cfg", workers=1, coverage=False, timeout=900)
     canary(v)  # meanwhile, in the main thread (no fork)
+    canary_cert(v)
     lap("canary")
     bg.join_all()
     mc1, mc2 = bg.get("mc1"), bg.get("mc2")
@@ -1390,6 +1509,22 @@ def run(tier):
     for k, m in pmap(_memo_job, need, chunksize=1):
         SIGMEMO[k] = m
     lap(f"RSA signatures from key files (signature provider / command line) made once: {len(need)}")
+    # certificate chains: the case space of CertChain (key type x hash of the issuer's own signature x hash of the subject's signature x
+    # tamper x entry point) is TLC's; one job builds one chain with the independent base and records every (tamper, entry) on it
+    mcc = bg.get("cert")
+    v.add_mc(mcc)
+    ccases = mcc.json_prints()
+    if len(ccases) != mcc.distinct or len(ccases) != 6 * 3 * 3 * len(CERT_TAMPERS) * len(CERT_ENTRIES):
+        raise Machinery(f"certificate case space mismatch: TLC has {mcc.distinct} states, emitted {len(ccases)}")
+    chains = sorted({(c["kt"], c["size"], c["ih"], c["sh"]) for c in ccases})
+    cjobs = [{"kt": a, "size": b, "ih": c, "sh": d, "salt": r.randrange(1 << 16)} for a, b, c, d in chains for _ in range(1 if quick else 4)]
+    cobs = [o for lst in pmap(_exec, [("cert", j) for j in cjobs], chunksize=1) for o in lst]
+    want = {(c["kt"], c["size"], c["ih"], c["sh"], c["tamper"], c["entry"]) for c in ccases}
+    if {tuple(o["a"][k] for k in ("kt", "size", "ih", "sh", "tamper", "entry")) for o in cobs} != want:
+        raise Machinery("certificate lane: executed cases differ from the case space of CertChain")
+    for i, o in enumerate(cobs):
+        o["id"] = i
+    lap(f"certificate chains: {len(cjobs)} chains, {len(cobs)} observations")
     out = pmap(_exec, work + fl, chunksize=32)
     obs = out[: len(cases)]
     obs2 = [o for o in out[len(cases): len(work)] if o is not None]
@@ -1432,6 +1567,26 @@ def run(tier):
         if n % 3 == 2:
             bg.join_all()
     bg.join_all()
+    rejc, resc = tlc.tv("C08", "CertChainTrace", [{k: o[k] for k in ("id", "a", "o")} for o in cobs])
+    if resc.tuples("INCOMPLETE"):
+        raise Machinery(f"trace validation (certificates) incomplete: {resc.tuples('INCOMPLETE')}")
+    v.count(len(cobs))
+    v.traces(len(cobs))
+    for o in cobs:
+        v.nontrivial(("cert", json.dumps(o["a"], sort_keys=True), o["x"]["case"]["salt"]))
+    v.sample({k: cobs[len(cobs) // 2][k] for k in ("kind", "a", "o")}, limit=6)
+    lap(f"TV certificates: {len(cobs)} observations, {len(rejc)} rejected")
+    for oid, (_, _, _, failed) in sorted(rejc.items()):
+        o = cobs[oid]
+        clauses = parse_set(failed)
+        if not clauses or "domain" in clauses or "made" in clauses:
+            raise Machinery(f"certificate lane produced an observation outside its own case: {o} ({failed})")
+        a = o["a"]
+        mix = "same-hash" if a["ih"] == a["sh"] else "mixed-hash"
+        v.violation(f"C08/cert/{a['kt']}{a['size']}/{a['entry']}/{a['tamper']}/{mix}/res={o['o']['res'].split(':')[0]}",
+                    f"chain root(self-signed {a['ih']}) -> leaf({a['sh']}), tamper {a['tamper']}: {a['entry']} answered {o['o']['res']} "
+                    f"{o['x']['detail']}; the independent verification of the leaf's signature says {o['o']['indep']}",
+                    {"lane": "cert", "case": o["x"]["case"], "obs": o})
     rej, res = bg.get("tv1")
     if res.tuples("INCOMPLETE"):
         raise Machinery(f"trace validation incomplete: {res.tuples('INCOMPLETE')}")
@@ -1497,7 +1652,10 @@ def run(tier):
         "key and every second action); every signature of every lane is CLASSIFIED by the independent base (all (hash, padding) pairs of "
         "the matrix under which cryptography accepts it) and TLC demands exactly the requested pair; the general signature lanes use one "
         "source drawn from the seed; tamper sweep: Sign - flip bit i - Verify for every bit i of the signature / of a 16-byte message "
-        "(thorough) or a stratified sample (quick). A case is non-trivial if it produced at least one event beyond the key binding; "
+        "(thorough) or a stratified sample (quick); certificate lane: chains root (self-signed, hash ih) -> leaf (signed by the root key, "
+        "hash sh) made with cryptography directly for EVERY key type x ih x sh (mixed-hash chains included) x {genuine, one bit of the TBS "
+        "part, one bit of the signature, issuer certificate with another key} x {subject.validate(issuer), issuer.validate_subject(subject), "
+        "validate_certificate_chain}, exhaustive in both tiers (the case space is CertChainMC's). A case is non-trivial if it produced at least one event beyond the key binding; "
         "distinct by (profile) resp. (behaviour, concrete key, prescribed bit)"
     )
     v.cov["exhaustive"] = True
@@ -1518,6 +1676,8 @@ def run(tier):
         "private keys are PKCS#8 (what SPSDK exports); other containers (SEC1 / PKCS#1 private, OpenSSH) are not part of 'parsing what was exported'",
         "ECDSASignature.parse(DER) is required to return the curve of the signature although DER does not carry it (as its API promises); failures are keyed by the I-spec's prediction",
         "SM2, Dilithium / ML-DSA keys and certificates are outside the property's list",
+        "certificates: only the signature verification of Certificate.validate / validate_subject / validate_certificate_chain is asserted (a signature "
+        "made with hash H by the issuer key verifies with H and not after tampering); names, validity period, CA flag, path length are not judged",
     ]
     return v.finish()
 
@@ -1526,7 +1686,12 @@ def replay(path):
     import_spsdk()
     refpk.selftest()
     w = json.load(open(path))["witness"]
-    if w["lane"] == "flow":
+    if w["lane"] == "cert":
+        o = exec_cert(w["case"], only=tuple(w["case"]["only"]))[0]
+        o["id"] = 0
+        rej, _ = tlc.tv("C08", "CertChainTrace", [{k: o[k] for k in ("id", "a", "o")}])
+        say(json.dumps(o)[:3000])
+    elif w["lane"] == "flow":
         t = replay_flow(w["job"])
         t["id"] = 0
         slim = {k: t[k] for k in ("id", "flow", "kt", "size", "kk0", "dflt", "ev")}
